@@ -20,7 +20,8 @@ from .. import carts, faults, fsmon
 from .. import refcodec as rc
 
 LEVEL = 'fault_enumeration'
-RULE = ('for each configuration {.p8, .p8.png} x {destination exists, absent} x entry {file.to_file, luafmt --overwrite, build over its input}: every '
+RULE = ('for each configuration {.p8, .p8.png} x {destination exists, absent} x entry {file.to_file, luafmt --overwrite, build over its input, '
+        'luamin / luafmt / writep8 writing <input>_fmt over an earlier output}: every '
         'stream write index k = 1..(fault-free count + 1) (complete), Lua-writer failures after k lines for the echo/minify/format writers and an '
         'unparseable-output writer, section failures at items {0, 1, mid, last} of each section, PNG encoder failures after k rows for k in a spread, '
         'and line failpoints: one per distinct executed (function, line) site plus random indices. A case is one injected fault; non-trivial: the fault '
@@ -46,6 +47,8 @@ def plan(tier, seed):
     specs.append({'kind': 'png_rows', 'exists': False})
     specs.append({'kind': 'cli', 'entry': 'luafmt'})
     specs.append({'kind': 'cli', 'entry': 'build'})
+    for e in ('luamin_fmt', 'luafmt_fmt', 'writep8_fmt'):
+        specs.append({'kind': 'cli', 'entry': e})
     specs.append({'kind': 'failpoints', 'fmt': 'p8', 'exists': True, 'random': 20 if tier == 'quick' else 200, 'entry': 'luafmt'})
     specs.append({'kind': 'failpoints', 'fmt': 'p8', 'exists': True, 'random': 20 if tier == 'quick' else 200, 'entry': 'build'})
     return specs
@@ -129,8 +132,9 @@ def fmt_class(fmt):
     return P8Formatter if fmt == 'p8' else P8PNGFormatter
 
 
-def attempt(ctx, dest, call, case, injector):
-    """Run call() under an armed injector; judge the destination if it raised."""
+def attempt(ctx, dest, call, case, injector, fired=None):
+    """Run call() under an armed injector; judge the destination if the fault was delivered: the call raised, or the
+    injector reports that it fired (an entry point may catch the exception and return an error code instead)."""
     ctx.case(repr(sorted((k, v) for k, v in case.items() if k != 'what')))
     root = os.path.dirname(dest.dir)
     try:
@@ -142,6 +146,9 @@ def attempt(ctx, dest, call, case, injector):
     except Exception as e:
         raised = e
     early = [p for p, m in w.events if p == fsmon._norm(dest.path) and m and any(c in str(m) for c in 'wa+')]
+    if raised is None and fired is not None and fired():
+        raised = 'fault delivered; the entry point returned instead of raising'
+        ctx.monitor('faults_swallowed_by_entry_point')
     if raised is None:
         ctx.monitor('faults_not_reached')
         # the write succeeded: refresh the snapshot (destination legitimately changed)
@@ -169,9 +176,10 @@ def run_stream(ctx, rng, spec, root):
     os.remove(scratch)
     ctx.extra['stream_writes_%s' % spec['fmt']] = total
     for k in range(1, total + 2):
-        with faults.StreamFaultPatch(cls, k):
+        with faults.StreamFaultPatch(cls, k) as pt:
             attempt(ctx, dest, lambda: p8file.to_file(g, dest.path),
-                    {'injector': 'stream', 'k': k, 'fmt': spec['fmt'], 'exists': spec['exists']}, 'stream')
+                    {'injector': 'stream', 'k': k, 'fmt': spec['fmt'], 'exists': spec['exists']}, 'stream',
+                    fired=lambda: pt.stream is not None and pt.stream.failed)
         ctx.feature('stream_index_%s' % spec['fmt'])
     ctx.sample({'injector': 'stream', 'fmt': spec['fmt'], 'write_indices': '1..%d' % (total + 1)})
 
@@ -231,7 +239,54 @@ def cli_call(entry, dest, root):
     return lambda: tool.main(['-q', 'build', dest.path, '--gfx', src, '--lua', dest.path])
 
 
+class FmtDest(Dest):
+    """Destination = the *_fmt file a CLI tool writes next to its input."""
+
+    def __init__(self, ctx, rng, fmt, exists, root):
+        Dest.__init__(self, ctx, rng, fmt, exists, root)
+        ext = '.p8' if fmt == 'p8' else '.p8.png'
+        inp = os.path.join(self.dir, 'cart_in' + ext)
+        out = os.path.join(self.dir, 'cart_in_fmt' + ext)
+        # the file Dest wrote becomes the input; the watched destination is the _fmt file (an earlier run's output)
+        if os.path.exists(self.path):
+            os.replace(self.path, inp)
+        else:
+            regions, _ = carts.random_regions(rng, 'uniform')
+            data = rc.write_p8(regions, self.code, version=8) if fmt == 'p8' else rc.write_p8png(regions, rc.raw_code_area(self.code), 8)
+            with open(inp, 'wb') as fh:
+                fh.write(data)
+        if exists:
+            shutil.copy(inp, out)
+        self.path = out
+        self.inp = inp
+        self.snap = self.snapshot()
+
+
 def run_cli(ctx, rng, spec, root):
+    if spec['entry'].endswith('_fmt'):
+        from pico8 import tool
+        tool_name = spec['entry'].split('_')[0]
+        for fmt in ('p8', 'png'):
+            for exists in (True, False):
+                dest = FmtDest(ctx, rng, fmt, exists, root)
+                cls = fmt_class(fmt)
+                call = lambda: tool.main(['-q', tool_name, dest.inp])
+                with faults.StreamFaultPatch(cls, -1) as pt:
+                    call()
+                    total = pt.stream.writes
+                if not exists:
+                    os.remove(dest.path)
+                dest.snap = dest.snapshot()
+                for k in sorted(set(list(range(1, 8)) + [total // 2, total - 1, total, total + 1])):
+                    if k < 1:
+                        continue
+                    with faults.StreamFaultPatch(cls, k) as pt:
+                        attempt(ctx, dest, call, {'injector': 'stream', 'entry': spec['entry'], 'k': k, 'fmt': fmt, 'exists': exists},
+                                'stream', fired=lambda: pt.stream is not None and pt.stream.failed)
+                    ctx.feature('cli_%s_stream_index' % spec['entry'])
+                shutil.rmtree(dest.dir, ignore_errors=True)
+        ctx.sample({'entry': spec['entry'], 'note': 'writes <input>_fmt next to the input; an earlier output may exist'})
+        return
     fmts = ('p8',) if spec['entry'] == 'luafmt' else ('p8', 'png')
     for fmt in fmts:
         dest = Dest(ctx, rng, fmt, True, root)
@@ -243,9 +298,9 @@ def run_cli(ctx, rng, spec, root):
         # that run legitimately rewrote the destination
         dest.snap = dest.snapshot()
         for k in range(1, total + 2):
-            with faults.StreamFaultPatch(cls, k):
+            with faults.StreamFaultPatch(cls, k) as pt:
                 attempt(ctx, dest, call, {'injector': 'stream', 'entry': spec['entry'], 'k': k, 'fmt': fmt, 'exists': True},
-                        'stream')
+                        'stream', fired=lambda: pt.stream is not None and pt.stream.failed)
             ctx.feature('cli_%s_stream_index' % spec['entry'])
         shutil.rmtree(dest.dir, ignore_errors=True)
     ctx.sample({'entry': spec['entry'], 'injector': 'stream', 'note': 'writes over its own input'})
@@ -298,7 +353,8 @@ def run_failpoints(ctx, rng, spec, root):
             fp.arm(fail_at=n)
             try:
                 delivered = attempt(ctx, dest, call, {'injector': 'failpoint', 'n': n, 'fmt': spec['fmt'], 'exists': spec['exists'],
-                                                      'entry': entry, 'site': list(seq[n - 1])}, 'failpoint')
+                                                      'entry': entry, 'site': list(seq[n - 1])}, 'failpoint',
+                                    fired=lambda: fp.fired is not None)
             finally:
                 fp.disarm()
             if delivered:
@@ -378,6 +434,9 @@ def gates(m, tier):
     hit, total = mon.get('failpoint_sites_hit', 0), mon.get('failpoint_sites_in_fault_free_run', 0)
     if total == 0 or hit < 0.9 * total:
         missed.append('failpoint sites hit %d of %d (<90%%)' % (hit, total))
+    for e in ('luamin_fmt', 'luafmt_fmt', 'writep8_fmt'):
+        if f.get('cli_%s_stream_index' % e, 0) < 8:
+            missed.append('CLI %s under-driven' % e)
     if f.get('cli_luafmt_stream_index', 0) < 5 or f.get('cli_build_stream_index', 0) < 5:
         missed.append('CLI overwrite paths under-driven')
     return missed
